@@ -5,7 +5,7 @@ export GOFLAGS=-mod=mod GOPROXY=off GOSUMDB=off GOTOOLCHAIN=local
 wt="$1"; patch="$2"; mod="$3"; pkgs="$4"; run="$5"; shift 5
 git -C "$wt" checkout -q -- . ; git -C "$wt" clean -fdq
 demo_pkgs=""
-for d in "$@"; do src="${d%%:*}"; dst="${d##*:}"; cp "$src" "$wt/$dst"; demo_pkgs="$demo_pkgs ./$(dirname "${dst#$mod/}")"; done
+for d in "$@"; do src="${d%%:*}"; dst="${d##*:}"; mkdir -p "$(dirname "$wt/$dst")"; cp "$src" "$wt/$dst"; demo_pkgs="$demo_pkgs ./$(dirname "${dst#$mod/}")"; done
 cd "$wt/$mod"
 echo "== demo WITHOUT change (expect pass)"; go test -vet=off -count=1 -timeout 120s -run "$run" $demo_pkgs 2>&1 | grep -E "^(--- FAIL|FAIL|ok|panic)" | cut -c1-200 | tail -3; r1=${PIPESTATUS[0]}
 git -C "$wt" apply "$patch" || { echo "patch does not apply"; exit 3; }
